@@ -3,7 +3,9 @@ package object
 import (
 	"bytes"
 	"encoding/json"
+	"fmt"
 	"sort"
+	"strings"
 
 	"github.com/risor-io/risor/errz"
 )
@@ -289,4 +291,55 @@ func (m *Map) marshalVisit(v *visit) ([]byte, error) {
 	}
 	buf.WriteByte('}')
 	return buf.Bytes(), nil
+}
+
+// newInspectVisit returns the record for printing a value. Printing notes
+// every container from the start (a list that contains itself prints as
+// [[...]], not sixty-four levels deep), so the record starts at the depth
+// from which containers are remembered.
+func newInspectVisit() *visit {
+	return &visit{depth: cycleCheckDepth}
+}
+
+// inspectVisit is Inspect for values met while printing containers.
+func inspectVisit(obj Object, v *visit) string {
+	switch obj := obj.(type) {
+	case *List:
+		return obj.inspectVisit(v)
+	case *Map:
+		return obj.inspectVisit(v)
+	}
+	return obj.Inspect()
+}
+
+func (ls *List) inspectVisit(v *visit) string {
+	if v.enter(ls) {
+		return "[...]"
+	}
+	defer v.leave(ls)
+	var out bytes.Buffer
+	items := make([]string, 0, len(ls.items))
+	for _, e := range ls.items {
+		items = append(items, inspectVisit(e, v))
+	}
+	out.WriteString("[")
+	out.WriteString(strings.Join(items, ", "))
+	out.WriteString("]")
+	return out.String()
+}
+
+func (m *Map) inspectVisit(v *visit) string {
+	if v.enter(m) {
+		return "{...}"
+	}
+	defer v.leave(m)
+	var out bytes.Buffer
+	pairs := make([]string, 0, len(m.items))
+	for _, k := range m.SortedKeys() {
+		pairs = append(pairs, fmt.Sprintf("%q: %s", k, inspectVisit(m.items[k], v)))
+	}
+	out.WriteString("{")
+	out.WriteString(strings.Join(pairs, ", "))
+	out.WriteString("}")
+	return out.String()
 }
